@@ -1072,7 +1072,7 @@ class BootstrapElectionModel(BaseElectionModel):
         # in case district election we need to create a variable that defines the state, district
         # which is what the contest is
         if self.district_election:  # want to model aggregate effect at both district and state levels
-            all_units["postal_code-district"] = all_units[["postal_code", "district"]].agg("_".join, axis=1)
+            all_units["postal_code-district"] = self._join_aggregate_keys(all_units, ["postal_code", "district"])
 
             contest_indicator = pd.get_dummies(all_units["postal_code-district"])
             postal_code_indicator = pd.get_dummies(all_units["postal_code"])
@@ -1080,7 +1080,9 @@ class BootstrapElectionModel(BaseElectionModel):
             # drop districts that are at-large districts for a state
             postal_code_filter = all_units.groupby("postal_code")["postal_code-district"].nunique() > 1
             valid_postal_codes = postal_code_filter[postal_code_filter].index
-            valid_districts = all_units[all_units.postal_code.isin(valid_postal_codes)]["postal_code-district"].unique()
+            valid_districts = (
+                all_units[all_units.postal_code.isin(valid_postal_codes)]["postal_code-district"].dropna().unique()
+            )
             contest_indicator_filtered = contest_indicator.loc[:, valid_districts]
 
             # drop contest indicators if there are fewer than 10 units in contest
@@ -1482,13 +1484,26 @@ class BootstrapElectionModel(BaseElectionModel):
         )
         return to_call_mod
 
+    def _join_aggregate_keys(self, units: pd.DataFrame, aggregate: list) -> np.ndarray:
+        """
+        Joins the aggregate key columns of each unit into one label (e.g. VA_3).
+        Units for which one of the keys is unknown (e.g. the county classification or the district of an
+        unexpected unit) get a missing label, so that they are part of no group.
+        """
+        keys = units[aggregate]
+        known = keys.notna().all(axis=1).values
+        labels = np.full(units.shape[0], np.nan, dtype=object)
+        if known.any():
+            labels[known] = keys[known].agg("_".join, axis=1).values
+        return labels
+
     def _get_aggregate_dummies(self, all_units: pd.DataFrame, aggregate: list, temp_column_name: str) -> pd.DataFrame:
         """
         Dummy variables for each group of a multi-column aggregate. The columns are in the same order as the rows
         of the aggregate data frames, which are sorted by the aggregate columns (sorting the joined label instead
         differs when one key is a prefix of another, e.g. districts 1 and 10).
         """
-        all_units[temp_column_name] = all_units[aggregate].agg("_".join, axis=1)
+        all_units[temp_column_name] = self._join_aggregate_keys(all_units, aggregate)
         dummies = pd.get_dummies(all_units[temp_column_name])
         ordered_labels = (
             all_units[all_units[temp_column_name].notna()]
